@@ -87,11 +87,11 @@ Print Assumptions C16_response_sites.
 (* A response that fails to parse (or a redirect that cannot be followed) is
    delivered with its error flag set, unless it is an event stream (which
    delivers no response entries at all). *)
-Theorem C16_malformed_errored : forall cf o n k queued errored pi body buf cut closed,
+Theorem C16_malformed_errored : forall cf o n k queued errored pi body buf cut closed dead,
   pi_sse pi = false ->
   (errored = true /\ cf_redirectable cf && pi_redirect pi = false) \/
   (cf_redirectable cf && pi_redirect pi = true /\ redirect_site o n (pi_location pi) = Exc HTTPExc) ->
-  exists k' r, client_ended cf o n k queued errored pi body buf cut closed = Ok k'
+  exists k' r, client_ended cf o n k queued errored pi body buf cut closed dead = Ok k'
                /\ k_responses k' = k_responses k ++ [r] /\ rp_errored r = true
                /\ rp_status r = pi_status pi /\ k_waited k' = false.
 Proof. exact client_ended_errored. Qed.
@@ -132,7 +132,7 @@ Qed.
    redirect without Location are delivered errored; 100 Continue is skipped *)
 Example C16_example_client :
   let cf := {| cf_method := MGet; cf_redirectable := true; cf_dictable := false;
-               cf_sse_long := false; cf_json := [] |} in
+               cf_json := [] |} in
   let run s := match client_run cf o0 n0 (client0 1) (one s) with
                | Ok k => map (fun r => (rp_status r, rp_errored r, rp_body r)) (k_responses k)
                | Exc _ => [] end in
